@@ -70,7 +70,7 @@ KeySet ==
     \* a key that is the directory of another key: d is never written (the fs backends cannot hold both), but it is
     \* read and deleted like any other never-written key
     [] KeySetName = "dirkey" -> {<<100>>, <<100, 47, 101>>, <<100, 47, 120>>, <<100, 47, 101, 47, 120>>}   \* d  d/e  d/x  d/e/x
-    \* long keys that share their first 220 bytes ('^' stands for 220 bytes without a delimiter): ^a  ^b  z
+    \* long keys that share their first 260 bytes ('^' stands for 260 bytes without a delimiter: a path segment longer than NAME_MAX): ^a  ^b  z
     [] KeySetName = "longshared" -> {<<94, 97>>, <<94, 98>>, <<122>>}
     [] KeySetName = "coll"  -> {<<100, 47, 120>>, <<100, 95, 120>>, <<100, 92, 120>>}            \* d/x, d_x, d\x
     [] KeySetName = "list"  -> {<<97>>, <<97, 47, 49>>, <<97, 45, 98>>, <<98>>} \* a, a/1, a-b, b
